@@ -23,7 +23,9 @@ round 2 13/20, round 3 14/20 (13 by the property's own check, C01-3 by C03 - see
 (`-5`) C01-C10 5/10, round 6 (`-6`, C01-C10 only) 6/10 with one documented miss (C04-6: fluxes below the solver
 tolerance, see its row and the ASSUMPTIONS of C04); session 3: round 5 for C11-C20 5/10 (C12, C13, C15, C19, C20 directly),
 round 6 for C11-C20 6/10 and round 7 for C01-C10 8/10 (C01-7 by C02 - see its row - and C07-7 after strengthening); every
-one of these 30 is caught by the committed checks. The author of C01-6 also reported a defect of the unchanged tree
+one of these 30 is caught by the committed checks; round 8 for all twenty: 13/20 at the first try, the other seven (C04, C06,
+C07, C08, C10, C13, C14) after the generator gained the missing dimension - two of them (C04-8, C07-8) were caught at
+once by the check of the property whose state they corrupt (C01, C02). The author of C01-6 also reported a defect of the unchanged tree
 (Reaction.copy of a reaction outside the model), which was confirmed, fixed (5baf313) and is now generated
 (`detached_arith`). Seeded change C07-5 relied on a genuine defect of the unchanged tree (`GPR.eval` given a
 string), which was fixed (13ae901) - see its row; the legacy-note dimension added for C10-5 exposed genuine finding
